@@ -125,6 +125,10 @@ def deep_pickle(r):
 
 
 def run_config(cfg, res):
+  # random bytes can spell LONG_BINPUT with a huge index, which makes CPython's unpickler allocate gigabytes (a pickle
+  # bomb: a hang, not an exception, hence outside this property); an address-space limit turns it into a MemoryError
+  import resource
+  resource.setrlimit(resource.RLIMIT_AS, (4 << 30, 4 << 30))
   from vlib import boot, proto
   from vlib.refs import codec
   ns = boot.boot('carbon-cache', {})
@@ -168,6 +172,12 @@ def run_config(cfg, res):
                         dict(stream=stream.hex()[:4000], segmentation=desc))
           return False
         gi += 1
+      elif kind == 'optexact':
+        # unspecified item with a known name and value (only its timestamp treatment is open): at most one match
+        if gi < len(got) and got[gi][0] == exp[0] and proto.same_points([(got[gi][0], (0, got[gi][1][1]))], [(exp[0], (0, exp[1][1]))]) is None \
+           and not (got[gi][1][0] >= 0 and got[gi][1][0] < 1e9 and got[gi][1][0] == exp[1][0]):
+          gi += 1
+          res.count('unspecified_items_accepted')
       elif kind in ('opt', 'garbage'):
         # unspecified item: if something with its tag name shows up, consume it
         while gi < len(got) and exp is not None and isinstance(got[gi][0], str) and got[gi][0].startswith(exp):
@@ -285,7 +295,8 @@ def run_config(cfg, res):
           for segs, desc in ((([m]), 'whole'), ([m[i:i + 7] for i in range(0, len(m), 7)], 'chunks7')):
             o = proto.tcp_session(P.MetricLineReceiver, segs, rec)
             res.count('mutated_streams_executed')
-            mitems = [('good', g) for g in refgot] + ([('stop', None)] if closed else [])
+            # negative timestamps are unspecified here (-1 means "now", see C12): either outcome, matched by name
+            mitems = [(('good', g) if g[1][0] >= 0 else ('optexact', g)) for g in refgot] + ([('stop', None)] if closed else [])
             if not judge(o, mitems, m, 'mutated/' + desc, closed):
               break
     else:
